@@ -129,6 +129,10 @@ func poolConfigs(prop string, thorough bool) (cfgs []poolCfg, depth int) {
 				}
 			}
 		}
+		// resolver updates (new address list) while calls are open on channels that left READY
+		ru := poolCfg{Name: "C02 pool=2 wm=100 resolver-updates", Min: 2, Max: 2, WM: 100, Depth: 5, Setup: readyPool(2)}
+		ru.A = alphabet{Resolve: []string{"a2"}, States: "basic", Cmds: []string{"plain"}, Gens: []string{"L"}, Ctx: []string{"g"}, Done: []string{"ok", "err"}, MaxOpen: 2, MaxSC: 3}
+		add(ru)
 		// non-initial root: fallback on, the home of a bound key is down; UNBIND calls included: once
 		// unbound the key is an unknown key and must be spread like any other
 		hd := poolCfg{Name: "C02 pool=3 fallback root=home-down", Min: 3, Max: 3, WM: 100, Fallback: true, Depth: 5,
@@ -188,9 +192,14 @@ func poolConfigs(prop string, thorough bool) (cfgs []poolCfg, depth int) {
 		// resolver errors and resolver updates interleaved with the reports: they must not perturb the
 		// published pair either (the invariant is stated for every published state)
 		re := poolCfg{Name: "C04 pool=2 resolver-events", Min: 2, Max: 2, WM: 100, Setup: []string{"resolve(a1)"}, Depth: 5}
-		re.A = alphabet{Resolve: []string{"a2"}, ResErr: true, States: "full", Cmds: []string{"plain"}, Gens: []string{"L"},
+		re.A = alphabet{Resolve: []string{"a2", "empty"}, ResErr: true, States: "full", Shutdown: true, Cmds: []string{"plain"}, Gens: []string{"L"},
 			Ctx: []string{"g"}, Done: []string{"ok"}, MaxOpen: 1, MaxSC: 3}
 		add(re)
+		// nothing resolved yet: the first resolver results may be empty (no connection can be created)
+		fr := poolCfg{Name: "C04 min=1 max=2 fresh", Min: 1, Max: 2, WM: 100, Depth: 5}
+		fr.A = alphabet{Resolve: []string{"a1", "empty"}, ResErr: true, States: "full", Cmds: []string{"plain"}, Gens: []string{"L"},
+			Ctx: []string{"g"}, Done: []string{"ok"}, MaxOpen: 1, MaxSC: 3}
+		add(fr)
 	case "C05", "C06":
 		depth = 4
 		if thorough {
@@ -301,6 +310,12 @@ func poolConfigs(prop string, thorough bool) (cfgs []poolCfg, depth int) {
 			r := refreshedK("C07", k, alphabet{})
 			add(r)
 		}
+		// round-robin: a BIND pick parked on a channel that is not READY while an older call on that
+		// channel gets a response; the BIND call starts (is sent) only when its pick returns
+		pb := poolCfg{Name: "C07 calls=1 ms=1 pool=2 rr root=bind-parked-across-response", Min: 2, Max: 2, WM: 100, RR: true, RefCalls: 1, RefMs: 1, Depth: 4,
+			Setup: append(readyPool(2), "pick(plain,,L,g,d1)", "pick(plain,,L,g,d1)", "pick(bind,,L,g)", "done(2,ok)", "state(1,IDLE)", "pick(bind,,L,g,d3)", "adv(1)", "done(1,err)")}
+		pb.A = alphabet{States: "basic", Cmds: []string{"plain"}, Gens: []string{"L"}, Ctx: []string{"g,d1"}, Done: []string{"ok", "cde"}, Adv: []int{2}, MaxOpen: 4, MaxSC: 4}
+		add(pb)
 	case "C08":
 		depth = 6
 		if thorough {
@@ -332,6 +347,11 @@ func poolConfigs(prop string, thorough bool) (cfgs []poolCfg, depth int) {
 				}
 			}
 		}
+		// sizes left to their defaults (max_size omitted: 4), fallback on
+		dm := poolCfg{Name: "C08 min=2 max=default wm=100", Min: 2, Max: 0, WM: 100, Fallback: true, Depth: 4,
+			Setup: append(readyPool(2), "pick(bind,,L,g)", "done(0,ok:k1)")}
+		dm.A = alphabet{States: "basic", Cmds: []string{"bound", "plain"}, Keys: []string{"k1"}, Gens: []string{"L"}, Ctx: []string{"g"}, Done: []string{"ok"}, MaxOpen: 2, MaxSC: 3}
+		add(dm)
 		// non-initial root: the home came back through a refresh take-over (not through a report of its
 		// own) while a stand-in was in use; found by the thorough tier's root search as an oracle bug
 		hr := poolCfg{Name: "C08 pool=3 wm=100 refresh root=home-recovered-by-swap", Min: 3, Max: 3, WM: 100, Fallback: true, RefCalls: 1, RefMs: 1, Depth: 3,
@@ -401,6 +421,12 @@ func poolConfigs(prop string, thorough bool) (cfgs []poolCfg, depth int) {
 			Ctx: []string{"g,d1"}, Done: []string{"cde"}, Adv: []int{2}, MaxOpen: 1, MaxSC: 4}
 		so.Depth = 5
 		add(so)
+		// several addresses, pool growth while a refresh is in flight: the grown connection gets the
+		// whole latest list too
+		mg := poolCfg{Name: "C20 min=1 max=2 wm=1 multi-address root=refreshing", Min: 1, Max: 2, WM: 1, RefCalls: 1, RefMs: 1, Depth: 4,
+			Setup: []string{"resolve(a1+a2)", "state(0,CONNECTING)", "state(0,READY)", "pick(plain,,L,g,d1)", "adv(2)", "done(0,cde)"}}
+		mg.A = alphabet{Resolve: []string{"a2+a1"}, States: "basic", Cmds: []string{"plain"}, Gens: []string{"L"}, Ctx: []string{"g"}, Done: []string{"ok"}, MaxOpen: 3, MaxSC: 5}
+		add(mg)
 		// non-initial root: pool of one whose refresh is in flight
 		r := poolCfg{Name: "C20 min=1 max=1 root=refreshing", Min: 1, Max: 1, WM: 100, RefCalls: 1, RefMs: 1,
 			Setup: append(readyPool(1), "pick(plain,,L,g,d1)", "adv(2)", "done(0,cde)")}
@@ -438,6 +464,10 @@ func checkPool(c *vsched.RunCtx, prop string) {
 		"C20": "resolve-pick,refresh-resolve",
 	}[prop]
 	if c.Replay != nil {
+		if c.Replay.Harness == "key-extraction" {
+			runC11(c, prop) // an input enumeration replays by running again (same shard)
+			return
+		}
 		if strings.HasPrefix(c.Replay.Harness, "sched:") {
 			runPoolDrivers(c, drivers, false)
 		} else if strings.HasPrefix(c.Replay.Harness, "pairs") {
@@ -454,6 +484,11 @@ func checkPool(c *vsched.RunCtx, prop string) {
 	// judged by the invariants of this property on the real end state (pairs.go)
 	if pairProps[prop] {
 		runPairs(c, false)
+	}
+	// C05 also quantifies over "every request/response message shape and key locator": the totality
+	// half of the C11 enumeration (panics and calls that never return), attributed to C05
+	if prop == "C05" {
+		runC11(c, "C05")
 	}
 	idx, sub, nsub := c.Split(len(cfgs))
 	for _, i := range idx {
